@@ -72,6 +72,12 @@ def one_case(rng, tier):
     for p in range(rng.choice([1, 1, 2, 3])):
         prods.append([[rng.choice(grid), 'n0', rng.randrange(6), 1] for _ in range(rng.randrange(1, 10))])
     case = {'prog': prog, 'producers': prods, 'awaiting': rng.random() < 0.5}
+    if rng.random() < 0.12:
+        for s_ in case['prog']['nodes']:
+            if s_['op'] == 'sink' and s_.get('kind') == 'sync':
+                # a plain function that takes its time on the loop thread: no timer can fire meanwhile
+                s_['kind'] = 'sync_block'
+                s_['svc'] = [rng.choice([0, 0, 0.25, 0.75, 1.5]) for _ in range(3)]
     if rng.random() < 0.2:
         case['t0'] = 1.7e9          # a clock that reads like time.time(), not like a stopwatch
     return case
@@ -149,6 +155,8 @@ def check_case(case, counters, sets):
         e = where[ids[0]]
         counters['deadlines_checked'] = counters.get('deadlines_checked', 0) + 1
         blocked = sum(max(0.0, min(b1, e[1]) - max(b0, a[1])) for b0, b1 in spans if b1 > a[1] and b0 < e[1])
+        # plus the time during which a consumer kept the loop thread itself busy (no timer can fire then)
+        blocked += sum(max(0.0, min(b1, e[1]) - max(b0, a[1])) for b0, b1 in asyncrun.loop_blocks(ar) if b1 > a[1] and b0 < e[1])
         if e[1] - a[1] > T + blocked + EPS:
             add('C08:deadline@%s' % spec['op'],
                 '%s(%s): element %r arrived at t=%s, emitted at t=%s: %.3f later, but interval + blocked time is only %.3f + %.3f'
